@@ -713,7 +713,7 @@ func ruleScopeLex(c *Ctx) []Obligation {
 	con = "a type reference walks the ancestors of the type statement, nearest first"
 	okW := false
 	if find != nil {
-		for _, ci := range c.callsTo(res, find) {
+		for _, ci := range c.callsToDeep(res, find) {
 			arg := ci.Common().Args[1]
 			phi, isPhi := arg.(*ssa.Phi)
 			if !isPhi {
@@ -721,7 +721,8 @@ func ruleScopeLex(c *Ctx) []Obligation {
 			}
 			startsAtT, stepsUp := false, false
 			for _, e := range phi.Edges {
-				if mi, ok := e.(*ssa.MakeInterface); ok && isParamN(res, mi.X, 0) {
+				// the type node itself — in a private helper, the parameter that stands for it (inline.go)
+				if mi, ok := e.(*ssa.MakeInterface); ok && isParamN(res, resolveArg(mi.X), 0) {
 					startsAtT = true
 				}
 				if call, ok := e.(*ssa.Call); ok && invokeName(call) == "ParentNode" && call.Call.Value == ssa.Value(phi) {
